@@ -271,6 +271,12 @@ impl Driver for C19 {
             let mut shs: Vec<u32> = (0..=n as u32 + 1).collect();
             shs.push(1 << 16);
             shs.push(u32::MAX);
+            // indices whose byte offset wraps around 2^32 (back into the tag)
+            if entsize > 0 {
+                let q = ((1u64 << 32) / entsize as u64) as u32;
+                shs.push(q);
+                shs.push(q.wrapping_add(1));
+            }
             let base = n * entsize;
             let mut lens = vec![0usize, base, base + 1, base + 8];
             if base >= 1 {
